@@ -161,7 +161,20 @@ func runScript(sc *script, srcs [][]byte) {
 					}
 				}()
 				setMapSeed(o.Ent)
-				tree, err := gen.Parse("", srcs[o.P], gen.Entrypoint("Program"))
+				opts := []gen.Option{gen.Entrypoint("Program")}
+				fname := ""
+				switch o.Kind { // parser options a library caller may pass; none may change the result
+				case "memoize":
+					opts = append(opts, gen.Memoize(true))
+				case "filename":
+					fname = "some/dir/prog.nas"
+				case "norecover":
+					opts = append(opts, gen.Recover(false))
+				case "stats":
+					var st gen.Stats
+					opts = append(opts, gen.Statistics(&st, "no match"))
+				}
+				tree, err := gen.Parse(fname, srcs[o.P], opts...)
 				j.Draws = mapDraws()
 				if err != nil {
 					j.Out, j.Msg = "parse_error", trunc(err.Error())
